@@ -40,6 +40,8 @@ def run(ctx):
         return [("default", {"text": t}),
                 ("export", {"_task": "ground_export", "text": t}),
                 ("export-dag", {"_task": "ground_export", "text": t, "break_cycles": True})]
+        # the text export under --keep-duplicates is not run: the property names the two variants above; on the pinned tree
+        # to_prolog loses clauses of atoms that have duplicate proofs (DESIGN.md section 8)
         # --compact is documented as "may remove some predicates" and is not part of the property: not run
 
     def sig_extra(p, j, r, vn):
@@ -54,9 +56,12 @@ def run(ctx):
     J, runs, cov = common.sem_check(ctx, P, variants, level="translation_validation", post=post, write=False,
                                     sig_extra=sig_extra)
     # DIMACS
-    jobs = [("ground_export", {"text": progs.render(p), "fmt": "cnf"}) for p in P]
+    # the ground task's --keep-duplicates: a clause derived twice keeps both copies in the formula and in the CNF
+    jobs = [("ground_export", {"text": progs.render(p), "fmt": "cnf"}) for p in P] + \
+           [("ground_export", {"text": progs.render(p), "fmt": "cnf", "keep_duplicates": True}) for p in P]
     res = pl.run_jobs(jobs, nproc=ctx.nproc, timeout=60)
     cases = []
+    P2 = P + P
     for i, r in enumerate(res):
         if r.get("error") or r["dimacs"]["nvars"] > 14:
             continue
@@ -66,8 +71,8 @@ def run(ctx):
         ctx.evaluations += 1
         if not JD[c["id"]]["ok"]:
             ctx.violation({"clause": "dimacs-models-differ"}, "exported DIMACS and internal CNF have different models\n%s\n%s"
-                          % (progs.render(P[c["id"]]), c), {"kind": "sem", "program": P[c["id"]], "variant": "dimacs",
-                                                            "kwargs": {"text": progs.render(P[c["id"]])}})
+                          % (progs.render(P2[c["id"]]), c), {"kind": "sem", "program": P2[c["id"]], "variant": "dimacs",
+                                                             "kwargs": {"text": progs.render(P2[c["id"]])}})
     cov["dimacs_cases"] = len(cases)
     cov["programs"] = len(P)
     cov["disagreements_checked"] = ctx.evaluations
